@@ -447,7 +447,16 @@ impl Deb822 {
             } else {
                 paragraph.1
             };
+            // A paragraph that was the unterminated end of the input needs its line
+            // terminator once something can follow it.
+            let terminated = new_paragraph
+                .0
+                .last_token()
+                .map_or(true, |t| t.kind() == NEWLINE);
             inject(&mut builder, new_paragraph.0);
+            if !terminated {
+                builder.token(NEWLINE.into(), "\n");
+            }
         }
 
         for c in current {
